@@ -242,8 +242,12 @@ def check_size(prog: Program, res: Result) -> None:
                    "the crop is rescaled and the keypoints (shifted by the box corner only) no longer match", f"{fi.module.relpath}:{c.lineno}")
     # crop_bboxes derives the size from the boxes themselves
     cb = prog.func("sleap_nn.inference.peak_finding:crop_bboxes")
-    d = {norm(s.targets[0]): norm(s.value).replace(" ", "") for s in walk_function(cb.node) if isinstance(s, ast.Assign)}
-    ok = d.get("height") == "abs(bboxes[0,3,1]-bboxes[0,0,1])" and d.get("width") == "abs(bboxes[0,1,0]-bboxes[0,0,0])" and "(height+1,width+1)" in d.get("box_size", "")
+    cc = [c for c, q in prog.calls_in(cb) if q == "kornia.geometry.transform.crop_and_resize"]
+    szx = astq.xnorm(cb.node, astq.call_arg(cc[0], 2, "size")).replace(" ", "") if len(cc) == 1 else ""
+    d = {"box_size": szx}
+    hh = ("abs(bboxes[0,3,1]-bboxes[0,0,1])+1", "abs(bboxes[0,2,1]-bboxes[0,1,1])+1", "abs(bboxes[0,0,1]-bboxes[0,3,1])+1")
+    ww = ("abs(bboxes[0,1,0]-bboxes[0,0,0])+1", "abs(bboxes[0,2,0]-bboxes[0,3,0])+1", "abs(bboxes[0,0,0]-bboxes[0,1,0])+1")
+    ok = any(f"({h_},{w_})" in szx for h_ in hh for w_ in ww)
     res.ob(R, ok, cb.qualname, "crop_bboxes size = (box height + 1, box width + 1)", f"crop_bboxes derives its size as {d.get('box_size')}", cb.where)
     res.floor(R, 5)
 
